@@ -134,7 +134,10 @@ def main(tier_: str) -> int:
     }
     options = ['', 'abr=0', 'base=0', 'drm=all', 'drm=playready-pro', 'drm=clearkey,marlin', 'timeline=1', 'events=ping', 'events=scte35&scte35__inband=0',
                'events=ping&ping__inband=0&ping__count=3', 'mup=-1', 'mup=4', 'depth=20', 'acodec=mp4a', 'time=xsd', 'time=direct', 'patch=1',
-               'start=epoch', 'start=today', 'depth=20&leeway=0', 'bugs=saio', 'drm=playready&playready__version=1.0', 'tcodec=stpp']
+               'start=epoch', 'start=today', 'depth=20&leeway=0', 'bugs=saio', 'drm=playready&playready__version=1.0', 'tcodec=stpp',
+               # out-of-range numbers that would end up in unsigned attributes: either refused, or rendered non-negative
+               'events=ping&ping__inband=0&ping__count=3&ping__start=-500', 'events=ping&ping__inband=0&ping__count=2&ping__duration=-1',
+               'events=scte35&scte35__inband=0&scte35__count=2&scte35__start=-7', 'depth=-5', 'mup=-3&depth=20']
     lines: list[dict[str, Any]] = broken_catalogue()
     with scratch() as d:
         with DashApp(d / 'app', fixtures=('bbb', 'tears')) as da:
